@@ -13,6 +13,7 @@ the pinned (unfixed) tree — used only to cross-check the defect models by hand
 structure St where
   fx  : Bool := true
   buf : Option Buf := none      -- buffer after the last path operation
+  bufOk : Bool := false         -- ... which reported success
 
 def hexDigitVal (c : Char) : Option Nat :=
   if '0' ≤ c ∧ c ≤ '9' then some (c.toNat - 48)
@@ -68,7 +69,7 @@ def dumpBuf (b : Buf) : String :=
 def pathOp (st : St) (r : Except Err (Bool × Buf)) (sp : Option CStr) : St × String :=
   match r with
   | .error e => ({ st with buf := none }, withSpec (showErr e) (showPathSpec sp))
-  | .ok res => ({ st with buf := some res.2 }, withSpec (showPathRes res) (showPathSpec sp))
+  | .ok res => ({ st with buf := some res.2, bufOk := res.1 }, withSpec (showPathRes res) (showPathSpec sp))
 
 def signedParser (st : St) (name : String) (s : CStr) (base : Nat) : String :=
   let (r, lo, hi) : Except Err (Option Int) × Int × Int :=
@@ -198,7 +199,7 @@ def stepLine (st : St) : List String → St × String
     | none => (st, "bad-op")
   | ["buf"] =>
     match st.buf with
-    | some b => (st, dumpBuf b)
+    | some b => (st, if st.bufOk then dumpBuf b else "errbuf")
     | none => (st, "none")
   | _ => (st, "bad-op")
 
